@@ -15,6 +15,7 @@ type RichOpts struct {
 	Copy      bool // statements that start COPY-in
 	Auth      bool // sometimes configure clear-text auth
 	BigErrs   bool // fully decorated errors
+	Helpers   bool // handlers call ParseParameters / Parameter.Scan / the binary COPY row reader
 	MaxMsgs   int
 }
 
@@ -33,6 +34,11 @@ func richStmt(t *rapid.T, o RichOpts) script.Stmt {
 	}
 	if rapid.IntRange(0, 3).Draw(t, "declare-params") == 0 {
 		st.Params = rapid.SliceOfN(rapid.SampledFrom([]uint32{0, 23, 25, 16, 4294967295, 2950}), 0, 5).Draw(t, "params")
+	}
+	if o.Helpers {
+		// handlers use the library's own helpers on client controlled data
+		st.ParseParams = rapid.IntRange(0, 2).Draw(t, "parse-params") == 0
+		st.ScanAs = rapid.SliceOfN(rapid.SampledFrom([]string{"int4", "text", "bool", "uuid", "timestamp", "float8", "bytea", ""}), 0, 4).Draw(t, "scan-as")
 	}
 	n := rapid.IntRange(0, 8).Draw(t, "nops")
 	for i := 0; i < n; i++ {
@@ -55,6 +61,9 @@ func richStmt(t *rapid.T, o RichOpts) script.Stmt {
 			cs := &script.CopySpec{Format: int16(rapid.IntRange(0, 1).Draw(t, "copy-format")), MaxReads: rapid.SampledFrom([]int{-1, -1, 0, 1, 3}).Draw(t, "max-reads"), OnAbort: rapid.SampledFrom([]string{"propagate", "own", "swallow"}).Draw(t, "on-abort")}
 			if cs.OnAbort == "own" {
 				cs.Own = richErr(t, o)
+			}
+			if o.Helpers && cs.Format == 1 {
+				cs.Rows = rapid.Bool().Draw(t, "binary-row-reader")
 			}
 			st.Ops = append(st.Ops, script.Op{K: "copyin", Copy: cs})
 		case k == 12:
